@@ -938,6 +938,9 @@ class EnumConverter(Converter[enum.Enum]):
 
     def try_convert(self, val: t.Any) -> enum.Enum:
         """See [`Converter.try_convert`][pane.converters.Converter.try_convert]"""
+        if isinstance(val, self.ty):
+            # already a member (a member of a `str`/`int` enum would otherwise be read through its value type)
+            return val
         val = self.inner_conv.try_convert(val)
         try:
             return self._member(val)
@@ -947,6 +950,8 @@ class EnumConverter(Converter[enum.Enum]):
 
     def collect_errors(self, val: t.Any) -> t.Optional[ErrorNode]:
         """See [`Converter.collect_errors`][pane.converters.Converter.collect_errors]"""
+        if isinstance(val, self.ty):
+            return None
         try:
             conv_val = self.inner_conv.try_convert(val)
         except ParseInterrupt:
